@@ -144,6 +144,8 @@ def run(chk, tier):
                        "tables and challenges are covered on the real code with the verdict rule TLC proved",
                        "the model's CTL grouping assumes the sides of one table to be consecutive (the code's group_by); non-consecutive "
                        "repetition and a table looking into itself are exercised on the real code only (known findings)",
+                       "tables of a multi-table system declare constraint degree 3: the CTL last-row constraint L_last*combine*Z has degree 3, "
+                       "so a STARK declaring degree 2 cannot carry a CTL (usage requirement of the library, not checked here)",
                        "soundness-type expectations only under configurations with >= 50 bits; polynomial / FRI / transcript layers belong to "
                        "C09 / C05 / C04"]
     o = lambda n: os.path.join(common.OUT, n)
@@ -174,7 +176,7 @@ def run(chk, tier):
     cases = []
     for name, _, _, _, _ in jobs:
         cases += common.tagged(results[name].prints, "LOOKUP17") + common.tagged(results[name].prints, "CTL17")
-    if len(cases) < 1500:
+    if len(cases) < 1000:
         raise ToolError("the specifications printed only %d cases" % len(cases))
     common.write_ndjson(o("c10_cases17.ndjson"), cases)
     out = _vh(["eval17", "--cases", o("c10_cases17.ndjson")])
@@ -202,14 +204,14 @@ def run(chk, tier):
     if thorough:
         acts = ["none", "looking_value", "looked_value", "extra_looked_row", "missing_looking_row", "missing_looked_row", "extra_looking_row",
                 "inactive_value", "filter_two"]
-        ct = ctl_cases(["A2", "A2x", "A2swap", "A2lin", "A2next", "A3", "R2", "R3", "M2"], acts, degs=(2, 3), ncs=(1, 2, 3), binary=(False, True))
-        ct += ctl_cases(["A2small"], ["none", "looking_value", "missing_looked_row"], degs=(2, 3))
+        ct = ctl_cases(["A2", "A2x", "A2swap", "A2lin", "A2next", "A3", "R2", "R3", "M2"], acts, degs=(3,), ncs=(1, 2, 3), binary=(False, True))
+        ct += ctl_cases(["A2small"], ["none", "looking_value", "missing_looked_row"])
         ct += ctl_cases(["A2", "R2", "A3"], acts, cfg=R3)
     else:
         ct = ctl_cases(["A2", "A2x", "A3", "R2", "M2", "A2next"], ["none", "looking_value", "extra_looked_row", "missing_looking_row"])
-        ct += ctl_cases(["A2lin"], ["none", "filter_two"], degs=(2,), ncs=(3,), binary=(True,))
+        ct += ctl_cases(["A2lin"], ["none", "filter_two"], ncs=(3,), binary=(True,))
     ct += ctl_cases(["A2x"], ["extra_dropped", "extra_altered"])
-    ct += ctl_cases(["R3nc", "S1"], ["none"], degs=(2, 3) if thorough else (3,))
+    ct += ctl_cases(["R3nc", "S1"], ["none"])
     common.write_ndjson(o("c10_ctl.ndjson"), ct)
     out = _absorb(chk, _vh(["ctl", "--scen", o("c10_ctl.ndjson")]), "vh c10 ctl --scen <case>")
     chk.extra["ctl"] = {"cases": len(ct), "accepted": out["accepted"], "rejected": out["rejected"], "panics": out["panics"], "by_class": out["classes"]}
